@@ -17,6 +17,8 @@ type bmcHooks struct {
 	visible   func(m *Machine, fr *Frame, instr ssa.Instruction) bool
 	alloc     func(m *Machine, fr *Frame, in *ssa.Alloc, et typesType) *Object
 	intrinsic func(m *Machine, name string, fn *ssa.Function, args []Value) *modelRes
+	spawn     func(m *Machine, fr *Frame, in *ssa.Go, f *FuncV, args []Value)
+	makeChan  func(m *Machine, cap int, et typesType, name string) *Chan
 }
 
 func (m *Machine) noteRead(o *Object, path []int) {
